@@ -284,6 +284,62 @@ func c14Pool() {
 		}
 		return n
 	}
+	// one wrapped function invoked by several tasks at about the same time: every invocation is a Call
+	// of its own (its own execution, its own result)
+	if simrt.Chance(1, 4) {
+		n := simrt.DrawRange(1, 3)
+		if mode == 0 {
+			n = n0
+		}
+		execs := 0
+		body := drawPause()
+		wrapped := x.w.Wrap(n, func() (interface{}, error) {
+			execs++
+			id := execs
+			x.running++
+			if x.running > x.maxReq {
+				simrt.Failf("C14.too-many-running", "an execution of the shared wrapped function started as number %d running at once, but the largest count any Call has passed so far is %d", x.running, x.maxReq)
+			}
+			body.do(x.unit)
+			x.running--
+			for _, o := range x.obs {
+				if x.running < o.minRunning {
+					o.minRunning = x.running
+				}
+			}
+			return &wkRes{1000 + id}, nil
+		})
+		k := simrt.DrawRange(2, 3)
+		seen := map[int]bool{}
+		returned := 0
+		for i := 0; i < k; i++ {
+			pre := drawPause()
+			go func() {
+				pre.do(x.unit)
+				if n > x.maxReq {
+					x.maxReq = n
+				}
+				if x.minReq == 0 || n < x.minReq {
+					x.minReq = n
+				}
+				x.lastReq = n
+				x.inflight++
+				simrt.Probe("wrapped_function_invoked_concurrently")
+				r, err := wrapped()
+				x.inflight--
+				returned++
+				res, ok := r.(*wkRes)
+				if err != nil || !ok || res == nil || res.id <= 1000 || res.id > 1000+execs || seen[res.id] {
+					simrt.Failf("C14.wrong-result", "an invocation of a wrapped function shared by %d tasks returned (%v, %v): every invocation must return the result of an execution of its own (%d executions so far, results already handed out: %v)", k, r, err, execs, seen)
+					return
+				}
+				seen[res.id] = true
+				if returned == k && execs != k {
+					simrt.Failf("C14.wrong-result", "%d invocations of the shared wrapped function have returned, but it was executed %d times", k, execs)
+				}
+			}()
+		}
+	}
 	// an invalid call (count <= 0, or a nil function) panics as documented; its caller recovers and
 	// everybody else carries on: it must not disturb the valid calls that are queued or running
 	if simrt.Chance(1, 4) {
